@@ -70,7 +70,7 @@ def gen_cases(engine, rng, tier):
     # $QMAILQUEUE not executable at all (every invocation ends in _exit(120))
     for _ in range(n // 3):
         noexec = rng.random() < 0.3
-        plan = [rng.choice(['ns', 'nh'] if noexec else ['ns', 'ns', 'nh', 'nh', 'ok', 'ok', 'exit:31', 'die:b:0:1']) for _ in range(5)]
+        plan = [rng.choice(['ns', 'nh'] if noexec else ['ns', 'ns', 'nh', 'nh', 'ok', 'ok', 'exit:31', 'die:b:0:1']) for _ in range(6)]     # one entry per DATA command below (at most 2 x 3): with qqexec=0 an invocation the plan does not cover would be a race
         chunks = [rng.choice([b'HELO c.example.net\r\n', b'EHLO c.example.net\r\n'])]
         for _ in range(rng.choice([1, 2])):
             chunks.append(session_gen.mail(rng, rng.choice(['ok', 'ok', 'bounce'])))
